@@ -13,6 +13,7 @@ import os
 import random
 
 import vlib
+from checks import brokerlib
 from checks import c01
 
 GEN = 'CONSTANTS RTopics <- GTopics Payloads = {"p1", "p2"} Depth = %d\nSPECIFICATION GSpec\nCONSTRAINT Dump\nCHECK_DEADLOCK FALSE\n'
@@ -100,8 +101,35 @@ def check(run):
               % (e.get("node"), json.dumps(ops), json.dumps(e.get("f")), json.dumps(e.get("got"))),
               {"kind": "retained", "scenario": {"mode": "retained", "ops": ops, "filters": [e.get("f")], "probe": "end"},
                "trace": scn[:1] + ops + [e]})
+    # ---- broker level: retained publishes through real sessions; replays read right after SUBACK (retain bit set),
+    # live copies at already subscribed clients (retain bit clear); on the publisher's node and on a second node
+    bh = hs[:: max(1, len(hs) // (600 if thorough else 60))]
+    bscns = []
+    subf = [[["#"]], [["a", "#"]], [["a", "+"], ["b"]], [["+"], ["a", "b", "#"]], [["a", ""], ["a"]]]
+    for k, h in enumerate(bh):
+        ops = [{"op": "connect", "c": 9, "n": 1, "client": "pub", "ka": 600},
+               {"op": "connect", "c": 1, "n": 1, "client": "early", "ka": 600},
+               {"op": "sub", "c": 1, "id": 1, "fs": [{"f": ["#"], "q": k % 3}]}]
+        for i, o in enumerate(h):
+            ops.append({"op": "pub", "c": 9, "t": o["t"], "p": (o["p"] + "-%d" % i) if o["p"] else "",
+                        "q": (i % 2) if o["p"] else 0, "r": True, "id": 20 + i})   # clears at QoS 0: an empty payload cannot be told apart in the trace
+            if i % 2 == 1 or i == len(h) - 1:
+                c = 2 + i
+                ops.append({"op": "connect", "c": c, "n": 1 + (k + i) % 2, "client": "late%d" % c, "ka": 600})
+                ops.append({"op": "sub", "c": c, "id": 2, "fs": [{"f": f, "q": (k + i) % 3} for f in subf[(k + i) % len(subf)]]})
+        ops.append({"op": "quiesce"})
+        bscns.append({"nodes": [1, 2], "ops": ops})
+    btpath, crashes = brokerlib.execute(run, bscns, "c07b", shards=12)
+    if crashes:
+        raise vlib.Inconclusive("broker driver died: %s" % crashes[0][2][-2000:])
+    bnev, bnscn, bvalidated, brejected, btstates = brokerlib.validate(run, "C07", bscns, btpath, v)
+    run.log("broker level: validated %d of %d scenarios (%d events)" % (bvalidated, len(bscns), bnev))
+    validated += bvalidated
+    tstates += btstates
+    rejected = rejected + brejected
     rc = v.finish()
     vlib.write_evidence(run, {
+        "broker_level_scenarios": len(bscns), "broker_level_events": bnev,
         "traces_validated_against_impl": validated,
         "evaluations": nev,
         "distinct_nontrivial": len(scns),
@@ -113,7 +141,7 @@ def check(run):
         "samples": [scns[0], scns[len(hs) // 2], {"trace_excerpt": vlib.head_events(tpath, 4)}],
     }, ["the replica receives every broadcast of the origin in order (delivery faults are C08-C10)",
         "the driver performs what the publish worker does with a retained PUBLISH: Topics().Set, or Topics().Delete for an empty payload",
-        "broker-level observation (retain bit on the wire, live copy unflagged) is validated by the node-harness part when present"],
+        "broker level: an even sample of the TLC-generated histories is published (retain flag set, empty payload = clear) through a real session on a two-node cluster; an early subscriber must get unflagged live copies, later subscribers on either node exactly the owed flagged replays (BrokerTrace)"],
         violations=v.n_new)
     run.log("validated %d scenarios, %d rejected (%d known)" % (validated, len(rejected), v.n_known))
     return rc
@@ -121,6 +149,8 @@ def check(run):
 
 def replay(run, path):
     rp = json.load(open(path))
+    if rp.get("kind") == "broker":
+        return brokerlib.replay(run, "C07", path)
     spath = os.path.join(run.scratch, "scenarios.ndjson")
     with open(spath, "w") as f:
         f.write(json.dumps(rp["scenario"]) + "\n")
